@@ -64,12 +64,12 @@ def run_history(payloads, via=None, bystander=None):
                 pass
         acc = accepts(p)
         form = via[step] if via else None
-        if form in ("hdlc", "hdlc-badfcs"):
-            wire_ = hdlc_frame_with(p) if 0 < len(p) <= 2030 else b""
+        if form in ("hdlc", "hdlc-badfcs", "hdlc-seg"):
+            wire_ = hdlc_frame_with(p, seg=1 if form == "hdlc-seg" else 0) if 0 < len(p) <= 2030 else b""
             if form == "hdlc-badfcs" and wire_:
                 wire_ = wire_[:-2] + bytes([wire_[-2] ^ 0x01]) + wire_[-1:]  # one FCS bit flipped: an invalid frame with the same payload
             frames = hdlc.HdlcFrameReader(False).read(wire_) if wire_ else []
-            ok = len(frames) == 1 and frames[0].payload == p and frames[0].is_valid == (form == "hdlc")
+            ok = len(frames) == 1 and frames[0].payload == p and frames[0].is_valid == (form != "hdlc-badfcs")
             form = "hdlc" if ok else None
         if form == "dlms":
             res = guarded(ad.decode_message, DlmsMessage(p), what="AutoDecoder.decode_message(DlmsMessage)")
@@ -194,7 +194,7 @@ def history_st(draw):
             items.append(("mut/" + nm, c15._mutate(ALL[nm], draw(st.lists(c15._op, min_size=1, max_size=3)))))
         else:
             items.append(("junk/random", draw(st.binary(max_size=40))))
-    via = [draw(st.sampled_from([None, None, "dlms", "hdlc", "hdlc-badfcs"])) for _ in range(n)]
+    via = [draw(st.sampled_from([None, None, "dlms", "hdlc", "hdlc-badfcs", "hdlc-seg"])) for _ in range(n)]
     bystander = [ALL[nm] for nm in draw(st.lists(st.sampled_from(NAMES + sorted(JUNK)), min_size=1, max_size=4))] if draw(st.booleans()) else None
     return ([i[0] for i in items], [i[1] for i in items], via, bystander)
 
